@@ -187,6 +187,8 @@ def main(argv=None):
     for v in vac:
         engine_errors.append((v["name"], "vacuous: path hypotheses are unsatisfiable"))
 
+    import shutil
+    shutil.rmtree(os.path.join(ROOT, "replays", pid), ignore_errors=True)
     os.makedirs(os.path.join(ROOT, "replays", pid), exist_ok=True)
     violations = []
     known_lines = []
@@ -214,6 +216,13 @@ def main(argv=None):
         with open(os.path.join(ROOT, path), "w") as f:
             json.dump(rec, f, indent=1, default=str)
         reproduced = bool(native_res and native_res.get("reproduced"))
+        if not reproduced and "summation-structure" in r["name"]:
+            # the structural matcher of two summations is sufficient, not necessary: a mismatch that does not
+            # reproduce on the real code is an engine limit (undecided), not a refutation
+            r["status"] = "unknown"
+            r["reason"] = "summation structures differ and the concrete replay does not fail"
+            unknown.append(r)
+            continue
         violations.append(dict(obligation=r["name"], replay=path, reproduced=reproduced))
     for pv in probe_violations:
         rep = pv["failure"].get("replay_request")
